@@ -2,17 +2,19 @@ import ZCV.Model.Matcher
 namespace ZCV.Props.C07
 open ZCV ZCV.Cfg
 
-/-- the header/closer/directive dispatch of one line never produces an internal error by itself:
-    a malformed directive line is a syntax error -/
-theorem C07_directive_total (url : Option Str) (line : Nat) (rest : Str) :
-    (∃ d, directive url line rest = .ok d) ∨ (∃ e, directive url line rest = .error (.cfg e) ∧ e.kind = .syntax) ∨
-    directive url line rest = .error (.internal "AttributeError") := by
-  unfold directive
+/-- the directive names `handle_directive` lets through all have a handler method: with the *generated* tuple,
+    reading one line can never end in the AttributeError of a missing `handle_<name>` -/
+theorem C07_lineShape_no_internal (l : Str) (e : String) : lineShape l ≠ .internal e := by
+  unfold lineShape
   dsimp only
   repeat' split
   all_goals first
-    | exact Or.inl ⟨_, rfl⟩
-    | exact Or.inr (Or.inl ⟨_, rfl, rfl⟩)
-    | exact Or.inr (Or.inr rfl)
+    | (intro h; cases h; done)
+    | skip
+  rename_i name arg hdir harg h1 h2 h3
+  have hd : Gen.directives = ["define".toList, "import".toList, "include".toList] := rfl
+  rw [hd] at hdir
+  simp only [List.contains_cons, List.contains_nil, Bool.or_false, Bool.not_eq_true', Bool.or_eq_false_iff] at hdir
+  simp_all
 
 end ZCV.Props.C07
